@@ -65,7 +65,7 @@ func main() {
 			"[all payload-size tuples that fit; all compressed-flag patterns under identity, unflagged under absent/gzip/deflate/snappy] x all 2^(n-1) cut-point sets " +
 			"x END_STREAM on {last DATA, empty DATA, trailers} x {client-to-server, server-to-client}. SAMPLED beyond that: all 1-cut sets (n<=400) and all 2-cut sets " +
 			"(n<=48 quick / n<=160 thorough) of a fixed list of compressed streams, one-byte dribble, PRNG message sequences (0..6 messages, sizes {0,1,5,100,70000}) " +
-			"with PRNG cut sets that always cut inside a prefix and at message boundaries or fixed-size frames, both directions interleaved, processor factories returning a processor for both / only the request / only the response direction, header blocks in 5 field layouts (content-type first, after grpc-encoding, last, middle, PRNG order; a fixed fifth each), " +
+			"with PRNG cut sets that always cut inside a prefix and at message boundaries or fixed-size frames, both directions interleaved, processor factories returning a processor for both / only the request / only the response direction, flagged messages in 4 valid forms of their codec (single writer, multi-member/flushed/multi-chunk, alternative levels and header fields, stored/uncompressed/padding; a fixed quarter each), header blocks in 5 field layouts (content-type first, after grpc-encoding, last, middle, PRNG order; a fixed fifth each), " +
 			"messages of 1.1-4.2 MB or compressed messages inflating to 4-17 MiB followed by small ones under fixed-size, aligned or PRNG framing (large-* batches), streams that are not gRPC (14 content types incl. gRPC-Web and near-miss strings; " +
 			"payloads incl. gRPC-Web/0x80 frames, base64 text, 0x01 frames, bogus lengths) plus content types of unsettled gRPC-ness (byte identity only), and a sample through the real " +
 			"h2 relay (h2.Config.Proxy between a harness h2 client on an in-memory pipe and a harness TLS h2 server). " +
@@ -873,6 +873,23 @@ func judgeGRPC(v *verdicts, c *caseSpec, d int, o *obs, via string) {
 				break
 			}
 		}
+		vs := ""
+		for i, m := range f.Msgs {
+			if m.Flag && i < len(fr) && grpcx.NormEnc(f.Enc) != "identity" {
+				k := "default"
+				if m.Var != 0 {
+					k = "alternate"
+				}
+				if vs == "" {
+					vs = k
+				} else if vs != k {
+					vs = "mixed"
+				}
+			}
+		}
+		if vs != "" {
+			hdrClass += "|codec-variants=" + vs
+		}
 		procs := hdrClass + "|procs=" + c.Procs
 		if c.Procs == "" {
 			procs = hdrClass + "|procs=both"
@@ -1358,7 +1375,9 @@ func cutBlocks(r *vh.Run) []cutBlock {
 	for si, ls := range longStreams() {
 		for _, eos := range []string{"last", "empty", "trailers"} {
 			for dir := 0; dir < 2; dir++ {
-				b := cutBlock{Kind: "cut-block", Enc: ls.enc, Msgs: ls.msgs, EOS: eos, Dir: dir,
+				msgs := append([]grpcx.Msg(nil), ls.msgs...)
+				setVariants(msgs, si)
+				b := cutBlock{Kind: "cut-block", Enc: ls.enc, Msgs: msgs, EOS: eos, Dir: dir,
 					PSeed: uint64(r.Seed)*1000003 + uint64(si), NRand: r.Pick(12, 100), Idx: idx}
 				if idx%3 == 2 {
 					b.Procs = dirName[dir] // a processor for this direction only
@@ -1396,7 +1415,17 @@ func runCut12(r *vh.Run, child int) {
 var randSizes = []int{0, 1, 5, 100, 70000}
 var encs = []string{"", "identity", "gzip", "deflate", "snappy"}
 
-func randFlow(rng *rand.Rand, pseed uint64, dir int, maxBig int) *flowSpec {
+// setVariants gives the flagged messages the codec variants base, base+1, …
+// (mod 4): a fixed share of every valid form of the codec in every run.
+func setVariants(ms []grpcx.Msg, base int) {
+	for i := range ms {
+		if ms[i].Flag {
+			ms[i].Var = (base + i) % 4
+		}
+	}
+}
+
+func randFlow(rng *rand.Rand, pseed uint64, dir int, maxBig int, varBase int) *flowSpec {
 	f := &flowSpec{Enc: encs[rng.Intn(len(encs))]}
 	k := rng.Intn(7)
 	big := 0
@@ -1412,6 +1441,7 @@ func randFlow(rng *rand.Rand, pseed uint64, dir int, maxBig int) *flowSpec {
 		}
 		f.Msgs = append(f.Msgs, grpcx.Msg{Size: s, Flag: rng.Intn(2) == 0})
 	}
+	setVariants(f.Msgs, varBase)
 	if k == 0 {
 		f.EOS = []string{"empty", "trailers", "headers"}[rng.Intn(3)]
 	} else {
@@ -1482,6 +1512,7 @@ func largeCase(r *vh.Run, idx int) *caseSpec {
 	for k := 1 + rng.Intn(3); k > 0; k-- {
 		f.Msgs = append(f.Msgs, grpcx.Msg{Size: small[rng.Intn(len(small))], Flag: rng.Intn(2) == 0})
 	}
+	setVariants(f.Msgs, idx)
 	f.EOS = []string{"last", "empty", "trailers"}[rng.Intn(3)]
 	rd := f.render(c.PSeed, dir)
 	n := len(rd.Wire)
@@ -1535,12 +1566,12 @@ func randCase(r *vh.Run, stream string, idx int, relay bool) *caseSpec {
 	}
 	switch x := rng.Intn(10); {
 	case x < 3:
-		c.C2S = randFlow(rng, c.PSeed, 0, maxBig)
+		c.C2S = randFlow(rng, c.PSeed, 0, maxBig, idx)
 	case x < 6:
-		c.S2C = randFlow(rng, c.PSeed, 1, maxBig)
+		c.S2C = randFlow(rng, c.PSeed, 1, maxBig, idx+1)
 	default:
-		c.C2S = randFlow(rng, c.PSeed, 0, maxBig)
-		c.S2C = randFlow(rng, c.PSeed, 1, maxBig)
+		c.C2S = randFlow(rng, c.PSeed, 0, maxBig, idx)
+		c.S2C = randFlow(rng, c.PSeed, 1, maxBig, idx+1)
 		c.Conc = !relay && rng.Intn(3) == 0
 	}
 	c.Procs = randProcs(rng)
